@@ -101,7 +101,7 @@ Theorem authorization_total o s : authorization_unmarshal_with o s <> Panic.
 Proof.
   unfold authorization_unmarshal_with. destruct (cut SP s) as [[m rest]|]; [|discriminate].
   destruct (list_eqb m S_Basic).
-  - destruct (b64_decode rest); [|discriminate]. destruct (split_on COLON l) as [|u [|p [|? ?]]]; discriminate.
+  - destruct (b64_decode rest); [|discriminate]. destruct (cut COLON l) as [[u p]|]; discriminate.
   - destruct (list_eqb m S_Digest); [|discriminate].
     destruct (kv_parse rest COMMA_); [|discriminate].
     destruct (ofold _ _ _) as [[z f]|]; [|discriminate]. destruct (_ && _); discriminate.
@@ -172,10 +172,6 @@ Definition wf_authorization (z : authorization) : bool :=
     && nosep DQ (z_user z) && nosep DQ (z_realm z) && nosep DQ (z_nonce z) && nosep DQ (z_uri z) && nosep DQ (z_response z)
     && opt_all (nosep DQ) (z_opaque z) && opt_all (fun x => x <? 2) (z_alg z).
 
-(* the restriction under which the unchanged code round-trips: no ':' in a Basic password (F9) *)
-Definition basic_pass_ok (z : authorization) : bool :=
-  if z_method z =? 0 then nosep COLON (z_pass z) else true.
-
 Lemma bytes_okb_spec l : bytes_okb l = true <-> bytes_ok l.
 Proof.
   unfold bytes_okb, bytes_ok. rewrite forallb_forall, Forall_forall.
@@ -183,10 +179,10 @@ Proof.
 Qed.
 
 Theorem authorization_roundtrip_id z :
-  wf_authorization z = true -> basic_pass_ok z = true ->
+  wf_authorization z = true ->
   authorization_unmarshal_with id_order (authorization_marshal z) = Ok z.
 Proof.
-  intros Hwf Hp. unfold wf_authorization in Hwf. unfold basic_pass_ok in Hp.
+  intros Hwf. unfold wf_authorization in Hwf.
   destruct z as [m user pass realm nonce uri resp opaque alg].
   cbn [z_method z_user z_pass z_realm z_nonce z_uri z_response z_opaque z_alg] in *.
   unfold authorization_unmarshal_with, authorization_marshal. cbn [z_method].
@@ -197,7 +193,7 @@ Proof.
     cbn [app]. rewrite (cut_found SP S_Basic) by reflexivity.
     change (list_eqb S_Basic S_Basic) with true. cbv iota. cbn [z_user z_pass].
     rewrite b64_roundtrip.
-    + rewrite split_on_cons by exact Hu. rewrite split_on_clean by exact Hp. reflexivity.
+    + rewrite cut_found by exact Hu. reflexivity.
     + apply bytes_okb_spec in Hub, Hpb. unfold bytes_ok in *. apply Forall_app. split; [exact Hub|].
       constructor; [cbv; reflexivity|exact Hpb].
   - rewrite !andb_true_iff in Hwf. destruct Hwf as [[[[[[[[Hm1 Hpn] Hu] Hr] Hn] Hi] Hs] Ho] Ha].
@@ -215,19 +211,19 @@ Proof.
       destruct opaque as [op|], alg as [al|]; reflexivity.
 Qed.
 
-Theorem authorization_roundtrip_partial z o :
-  is_perm o -> wf_authorization z = true -> basic_pass_ok z = true ->
+Theorem authorization_roundtrip z o :
+  is_perm o -> wf_authorization z = true ->
   authorization_unmarshal_with o (authorization_marshal z) = Ok z.
 Proof.
-  intros Ho Hwf Hp. rewrite (authorization_deterministic _ o id_order Ho id_is_perm). now apply authorization_roundtrip_id.
+  intros Ho Hwf. rewrite (authorization_deterministic _ o id_order Ho id_is_perm). now apply authorization_roundtrip_id.
 Qed.
 
-(* F9: user "user", password "a:b" *)
+(* regression (F9, fixed by /repo ebc43d3): user "user", password "a:b" round-trips *)
 Definition f9_witness : authorization :=
   mkAuthorization 0 [117; 115; 101; 114] [97; 58; 98] [] [] [] [] None None.
-Theorem authorization_roundtrip_refuted :
-  exists z, wf_authorization z = true /\ authorization_unmarshal_with id_order (authorization_marshal z) = Err.
-Proof. exists f9_witness. split; vm_compute; reflexivity. Qed.
+Example f9_regression : wf_authorization f9_witness = true /\
+  authorization_unmarshal_with id_order (authorization_marshal f9_witness) = Ok f9_witness.
+Proof. split; vm_compute; reflexivity. Qed.
 
 (* marshalling is a function of the value: trivially, being a Coq function; stated for the record *)
 Theorem authorization_marshal_pure z1 z2 : z1 = z2 -> authorization_marshal z1 = authorization_marshal z2.
